@@ -119,26 +119,35 @@ func (t *Directive) Validate(root *Root) (errs []error) {
 			errs = append(errs, root.validateDirUse(t.Name()+"."+a.Name(), LocArgumentDefinition, du)...)
 		}
 	}
-	if path := t.hasDirLoop(map[string]bool{t.Name(): true}); 0 < len(path) {
+	if path := t.hasDirLoop(map[string]bool{t.Name(): true}, map[string]bool{}); 0 < len(path) {
 		errs = append(errs, fmt.Errorf("%w, directive %s has a directive loop - %s at %d:%d",
 			ErrValidation, t.Name(), strings.Join(path, "->"), t.line, t.col))
 	}
 	return
 }
 
-func (t *Directive) hasDirLoop(hits map[string]bool) []string {
+// hasDirLoop follows the directives used on the arguments. The directives on
+// the way from the start are in path, the ones already followed without
+// finding a loop are in done.
+func (t *Directive) hasDirLoop(path, done map[string]bool) []string {
 	for _, a := range t.args.list {
 		for _, du := range a.Directives() {
 			name := du.Directive.Name()
-			if hits[name] {
+			if path[name] {
 				return []string{t.Name() + "." + a.Name(), name}
 			}
-			hits[name] = true
+			if done[name] {
+				continue
+			}
 			if d2, _ := du.Directive.(*Directive); d2 != nil {
-				if path := d2.hasDirLoop(hits); 0 < len(path) {
-					return append([]string{t.Name() + "." + a.Name()}, path...)
+				path[name] = true
+				loop := d2.hasDirLoop(path, done)
+				delete(path, name)
+				if 0 < len(loop) {
+					return append([]string{t.Name() + "." + a.Name()}, loop...)
 				}
 			}
+			done[name] = true
 		}
 	}
 	return nil
